@@ -774,6 +774,10 @@ func (interp *Interpreter) cfg(root *node, sc *scope, importPath, pkgName string
 					err = dest.cfgErrorf("cannot assign to an element of a string (strings are immutable)")
 					break
 				}
+				if !isDestExpr(dest) {
+					err = dest.cfgErrorf("cannot assign to this expression (neither addressable nor a map index expression)")
+					break
+				}
 				if n.anc.kind == constDecl && !src.rval.IsValid() {
 					err = src.cfgErrorf("initializer of constant %s is not a constant", dest.ident)
 					break
@@ -958,6 +962,10 @@ func (interp *Interpreter) cfg(root *node, sc *scope, importPath, pkgName string
 			}
 			if isStringElem(n.child[0]) {
 				err = n.cfgErrorf("cannot assign to an element of a string (strings are immutable)")
+				break
+			}
+			if c0 := n.child[0]; !isDestExpr(c0) || c0.rval.IsValid() && !c0.rval.CanSet() && isConstType(c0.typ) {
+				err = c0.cfgErrorf("cannot assign to this expression (neither addressable nor a map index expression)")
 				break
 			}
 			wireChild(n)
@@ -3219,6 +3227,18 @@ func isMapEntry(n *node) bool {
 // and not for an interface, for which the operators have no generator.
 func directDest(dest *node) bool {
 	return !isBlank(dest) && dest.typ != nil && !isInterface(dest.typ)
+}
+
+// isDestExpr returns true if the form of n allows it on the left of an assignment: a variable,
+// a pointer indirection, a field, an element of an array, slice or map, possibly in parentheses.
+func isDestExpr(n *node) bool {
+	switch n.kind {
+	case identExpr, indexExpr, selectorExpr, starExpr:
+		return true
+	case parenExpr:
+		return len(n.child) == 1 && isDestExpr(n.child[0])
+	}
+	return false
 }
 
 // isStringElem returns true if n is the element of a string, which can not be assigned.
